@@ -27,12 +27,13 @@ enum Op {
 
 const KEYS: [&str; 2] = ["a", "b"];
 
-/// bounded search: every sequence of <= 6 operations over 2 keys against the obvious reference
+/// bounded search: every sequence of <= 6 (thorough tier: 7) operations over 2 keys against the obvious reference
 /// (a stack of whole-store snapshots: rollback restores the snapshot taken at the matching begin).
 fn c10_undo_search() -> (bool, String) {
     let ops = [
         Op::Begin, Op::Commit, Op::Rollback, Op::Set(0, 1), Op::Set(0, 2), Op::Set(1, 1), Op::SetNested(0, 3), Op::Remove(0), Op::Remove(1),
     ];
+    let max_len = crate::bound(6, 7);
     let mut tried = 0u64;
     let mut stack: Vec<Vec<Op>> = vec![vec![]];
     while let Some(s) = stack.pop() {
@@ -78,7 +79,7 @@ fn c10_undo_search() -> (bool, String) {
                 }
             }
         }
-        if s.len() < 6 {
+        if s.len() < max_len {
             for op in &ops {
                 let mut n = s.clone();
                 n.push(*op);
@@ -86,7 +87,7 @@ fn c10_undo_search() -> (bool, String) {
             }
         }
     }
-    (false, format!("{} sequences", tried))
+    (false, format!("{} sequences of <= {} operations over {} operations on 2 keys", tried, max_len, ops.len()))
 }
 
 pub fn witnesses() -> Vec<crate::W> {
